@@ -30,9 +30,17 @@ pub enum Traffic {
     RandomBothDirections,
     OneByteSegments,
     TimestampedAcks,
+    /// the client sends a complete *response* head (and the server a request head), then data
+    HttpOppositeRoleHeadThenData,
+    /// several complete TLS records in every segment after the ServerHello
+    TlsSeveralRecordsPerSegment,
+    /// HTTP/2 preface and SETTINGS, then endless DATA frames without any HEADERS
+    Http2DataWithoutHeaders,
+    /// a complete request, then endless further complete requests on the same connection
+    HttpPipelinedRequests,
 }
 
-pub const ALL: [Traffic; 9] = [
+pub const ALL: [Traffic; 13] = [
     Traffic::HttpHeadNeverCompletes,
     Traffic::HttpPostEndlessBody,
     Traffic::HttpResponseNeverCompletes,
@@ -42,6 +50,10 @@ pub const ALL: [Traffic; 9] = [
     Traffic::RandomBothDirections,
     Traffic::OneByteSegments,
     Traffic::TimestampedAcks,
+    Traffic::HttpOppositeRoleHeadThenData,
+    Traffic::TlsSeveralRecordsPerSegment,
+    Traffic::Http2DataWithoutHeaders,
+    Traffic::HttpPipelinedRequests,
 ];
 
 /// Lazily produces the frames of one long connection.
@@ -57,7 +69,7 @@ pub struct LongConn {
 impl LongConn {
     pub fn new(kind: Traffic, id: u64, seed: u64, seg: usize) -> LongConn {
         let mut r = Rng::from_parts(&[seed, id, kind as u64]);
-        let ep = Endpoints::v4([10, 7, (id >> 8) as u8, id as u8], 20000 + (id % 30000) as u16, [192, 0, 2, 1 + (id % 200) as u8], if matches!(kind, Traffic::TlsAppDataAfterServerHello | Traffic::TlsAppDataAfterClientHello | Traffic::TlsHugeDeclaredRecord) { 443 } else { 80 });
+        let ep = Endpoints::v4([10, 7, (id >> 8) as u8, id as u8], 20000 + (id % 30000) as u16, [192, 0, 2, 1 + (id % 200) as u8], if matches!(kind, Traffic::TlsAppDataAfterServerHello | Traffic::TlsAppDataAfterClientHello | Traffic::TlsHugeDeclaredRecord | Traffic::TlsSeveralRecordsPerSegment) { 443 } else { 80 });
         let mut s = Script::new(ep, Link::Ethernet, r.u32(), r.u32());
         s.handshake();
         match kind {
@@ -84,6 +96,23 @@ impl LongConn {
             }
             Traffic::TlsHugeDeclaredRecord => {
                 s.c_data(&[0x16, 0x03, 0x01, 0xff, 0xff, 0x01, 0x00, 0xff, 0xfb, 0x03, 0x03]);
+            }
+            Traffic::HttpOppositeRoleHeadThenData => {
+                s.c_data(b"HTTP/1.1 200 OK\r\nServer: nginx\r\nContent-Type: text/html\r\n\r\n");
+                s.s_data(b"GET /index.html HTTP/1.1\r\nHost: example.org\r\nUser-Agent: curl/8.4.0\r\n\r\n");
+            }
+            Traffic::TlsSeveralRecordsPerSegment => {
+                let h = scenario::client_hello(&mut r, id, 0);
+                s.c_data(&h);
+                s.s_data(&scenario::server_hello_like());
+            }
+            Traffic::Http2DataWithoutHeaders => {
+                let mut p = b"PRI * HTTP/2.0\r\n\r\nSM\r\n\r\n".to_vec();
+                p.extend_from_slice(&[0, 0, 6, 4, 0, 0, 0, 0, 0, 0, 3, 0, 0, 0, 100]);
+                s.c_data(&p);
+            }
+            Traffic::HttpPipelinedRequests => {
+                s.c_data(b"GET /first HTTP/1.1\r\nHost: example.org\r\nUser-Agent: curl/8.4.0\r\n\r\n");
             }
             _ => {}
         }
@@ -133,6 +162,40 @@ impl LongConn {
                 } else {
                     self.s.c_data(&b);
                 }
+            }
+            Traffic::HttpOppositeRoleHeadThenData => {
+                let b = filler(&mut self.r, n);
+                if self.i % 2 == 0 {
+                    self.s.c_data(&b);
+                } else {
+                    self.s.s_data(&b);
+                }
+            }
+            Traffic::TlsSeveralRecordsPerSegment => {
+                // three complete records (application data, alert-like, change-cipher-spec) per segment
+                let k = (n.max(40) - 15) / 3;
+                let mut b = Vec::new();
+                for ct in [0x17u8, 0x17, 0x14] {
+                    b.extend_from_slice(&[ct, 0x03, 0x03, (k >> 8) as u8, k as u8]);
+                    b.extend(self.r.bytes(k));
+                }
+                if self.i % 4 == 0 {
+                    self.s.c_data(&b);
+                } else {
+                    self.s.s_data(&b);
+                }
+            }
+            Traffic::Http2DataWithoutHeaders => {
+                let k = n.max(20) - 9;
+                let mut b = vec![(k >> 16) as u8, (k >> 8) as u8, k as u8, 0, 0, 0, 0, 0, 1];
+                b.extend(self.r.bytes(k));
+                self.s.c_data(&b);
+            }
+            Traffic::HttpPipelinedRequests => {
+                let mut b = format!("GET /r{} HTTP/1.1\r\nHost: example.org\r\nX-Pad: ", self.i).into_bytes();
+                b.extend(filler(&mut self.r, n.saturating_sub(60)));
+                b.extend_from_slice(b"\r\n\r\n");
+                self.s.c_data(&b);
             }
             Traffic::TimestampedAcks => {
                 let mut o = pkt::opt_nop();
